@@ -239,6 +239,9 @@ class BaseInput(BasePort):
         # is hard to catch here.
         self._check_callback()
         while True:
+            if self.closed and not self._messages:
+                # The port was closed earlier and has been drained.
+                return
             try:
                 yield self.receive()
             except OSError:
